@@ -13,6 +13,28 @@ inductive Forall2 {α β : Type} (R : α → β → Prop) : List α → List β 
   | nil : Forall2 R [] []
   | cons {a : α} {b : β} {as : List α} {bs : List β} : R a b → Forall2 R as bs → Forall2 R (a :: as) (b :: bs)
 
+theorem forall2_append_right {α β : Type} {R : α → β → Prop} : ∀ {l : List α} {b1 b2 : List β}, Forall2 R l (b1 ++ b2) →
+    ∃ l1 l2, l = l1 ++ l2 ∧ Forall2 R l1 b1 ∧ Forall2 R l2 b2 := by
+  intro l b1
+  induction b1 generalizing l with
+  | nil => intro b2 h; exact ⟨[], l, rfl, .nil, h⟩
+  | cons b bs ih =>
+    intro b2 h
+    cases h with
+    | cons hab htail =>
+      obtain ⟨l1, l2, rfl, h1, h2⟩ := ih htail
+      exact ⟨_ :: l1, l2, rfl, .cons hab h1, h2⟩
+
+theorem forall2_map_right {α β γ : Type} {R : α → γ → Prop} {f : β → γ} : ∀ {l : List α} {bs : List β},
+    Forall2 R l (bs.map f) → Forall2 (fun a b => R a (f b)) l bs := by
+  intro l bs
+  induction bs generalizing l with
+  | nil => intro h; cases h; exact .nil
+  | cons b rest ih =>
+    intro h
+    cases h with
+    | cons hab htail => exact .cons hab (ih htail)
+
 /-- the lines of one declaration: a header at the outer level and its children one level in -/
 structure Seg where
   head : LLine
